@@ -391,11 +391,18 @@ func refString(db map[string]AVal, a []string, now int64) *refExp {
 			return arity
 		}
 		off, ok := atoi(a[2])
-		if !ok || off < 0 {
-			return sErr("the offset is not a non-negative integer")
+		if !ok {
+			return sErr("the offset is not an integer")
 		}
 		if wrong {
 			return sErr("not a string")
+		}
+		if off < 0 {
+			// Redis refuses a negative offset; the repository's tests define it as "prepend".  Both are accepted.
+			s := a[3] + v.S
+			e := &refExp{reply: append(sCount(int64(len(s))), rErr()), desc: fmt.Sprintf("an error and no change, or the value %q", s), post: put(cloneDB(db), key, s, v.Exp)}
+			e.postAlt = append(e.postAlt, db)
+			return typed(e)
 		}
 		pad := func(s string, n int) string {
 			if len(s) < n {
@@ -411,11 +418,23 @@ func refString(db map[string]AVal, a []string, now int64) *refExp {
 				e.reply = append(e.reply, sCount(int64(len(s2)))...)
 				e.postAlt = append(e.postAlt, put(cloneDB(db), key, s2, v.Exp))
 			}
+			if !exists {
+				// "creates the key if it doesn't exist": an empty string value is accepted as well
+				e.postAlt = append(e.postAlt, put(cloneDB(db), key, "", 0))
+			}
 			return typed(e)
 		}
 		s := pad(v.S, off+len(a[3]))
 		s = s[:off] + a[3] + s[off+len(a[3]):]
-		return typed(&refExp{reply: sCount(int64(len(s))), desc: fmt.Sprintf("the new length %d", len(s)), post: put(cloneDB(db), key, s, v.Exp)})
+		e := &refExp{reply: sCount(int64(len(s))), desc: fmt.Sprintf("the new length %d", len(s)), post: put(cloneDB(db), key, s, v.Exp)}
+		if off > len(v.S) {
+			// past the end: zero padding (Redis) or plain appending (what the repository's tests define)
+			s2 := v.S + a[3]
+			e.reply = append(e.reply, sCount(int64(len(s2)))...)
+			e.postAlt = append(e.postAlt, put(cloneDB(db), key, s2, v.Exp))
+			e.desc += fmt.Sprintf(" (or %d, appending without padding)", len(s2))
+		}
+		return typed(e)
 
 	case "GETRANGE", "SUBSTR":
 		if len(a) != 4 {
@@ -438,6 +457,10 @@ func refString(db map[string]AVal, a []string, now int64) *refExp {
 		}
 		n := len(v.S)
 		st, en = normIdxS(st, n), normIdxS(en, n)
+		if st > en || st >= n {
+			// start after end, or beyond the string: the repository's tests define a reversed/clamped reading - not judged
+			return nil
+		}
 		// window intersection; Redis additionally lifts an end that is still negative to 0
 		alts := map[string]bool{}
 		for _, lift := range []bool{false, true} {
